@@ -250,7 +250,7 @@ package scheduler
 //@   loop 1 invariant [C01,C07,C05] D5-entries-of-one-consumer-have-distinct-slots: $D5
 //@   loop 1 invariant [C01,C07,C05] D6-every-subscription-has-its-entry: $D6
 //@   loop 1 invariant [C19,C05] W-waiting-counts-jobs-with-open-subscriptions: $WDEF && waiting == card(W)
-//@   loop 1 invariant [C01,C12] dispatched-and-finished-jobs: $DISP
+//@   loop 1 invariant [C01,C12,C02,C10] dispatched-and-finished-jobs: $DISP
 //@   loop 1 invariant [C08,C01] F1-failed-dependency-invalidates: $F1
 //@   loop 1 invariant [C08] F2-invalid-has-a-failed-dependency: $F2
 //@   loop 1 invariant [C08,C01] F3-finished-invalid-job-carries-an-error: $F3
@@ -276,7 +276,7 @@ package scheduler
 //@   at select 1 arm 1 assert [C01,C07] failfast-dispatched-jobs-dependencies-are-error-free: implies(!s.continueOnError, forall(k, int, implies(0 <= k && k < len(sent.deps), sent.deps[k].err == nil)))
 //@   at select 1 arm 1 assert [C08] continue-mode-job-with-a-failed-dependency-is-marked-invalid: forall(k, int, implies(0 <= k && k < len(sent.deps) && sent.deps[k].err != nil, sent.invalid))
 //@   at select 1 arm 1 assert [C08] continue-mode-invalid-job-has-a-failed-dependency: implies(sent.invalid, sent.deps[wit[sent]].done && sent.deps[wit[sent]].err != nil && 0 <= wit[sent] && wit[sent] < len(sent.deps))
-//@   at select 1 arm 1 assert [C01] dispatched-job-was-never-dispatched-before: !in(sent, disp) && in(sent, enq)
+//@   at select 1 arm 1 assert [C01,C02,C10] dispatched-job-was-never-dispatched-before: !in(sent, disp) && in(sent, enq)
 //@   at select 1 arm 1 ghost nDisp = nDisp + 1
 //@   at select 1 arm 1 ghost disp = add(disp, sent)
 //@   at select 1 arm 2 assert [C05] L4-enqueue-arm-is-enqueuec: ch == s.enqueuec && !closedSeen
